@@ -180,6 +180,22 @@ def log_once(ctx, kind: str) -> None:
                   f"log() appends to {targets} ({'conditionally' if not uncond else 'unconditionally'}); the parallel lists must grow by exactly one each", where=lf.where())
 
 
+def _flow_names(fv, expr: ast.AST, at: int, depth: int = 0) -> set:
+    """Names an expression's value is computed from, following every reaching definition of the locals involved."""
+    out = set()
+    for s_ in ast.walk(expr):
+        if not isinstance(s_, ast.Name):
+            continue
+        out.add(s_.id)
+        if depth > 5:
+            continue
+        for d in fv.cfg.reaching()[at].get(s_.id, ()):
+            dn = fv.cfg.nodes[d]
+            if dn.kind == "stmt" and isinstance(dn.ast, (ast.Assign, ast.AnnAssign)) and getattr(dn.ast, "value", None) is not None:
+                out |= _flow_names(fv, dn.ast.value, d, depth + 1)
+    return out
+
+
 def _root_names(fv, expr: ast.AST, at: int, depth: int = 0) -> set:
     """Names an expression is computed from, looking through single-definition temporaries (n_entries = nsteps * 2)."""
     out = set()
@@ -286,7 +302,7 @@ def condense_count(ctx, dev) -> None:
         ctx.rep.check(rp == want, rule, c + "/count", f"condenses {'2*' if same_branch else ''}{cnt} entries on the {'same' if same_branch else 'distinct'}-labware branch",
                       f"condenses `{rp.pretty()}` entries on the {'same' if same_branch else 'distinct'}-labware branch; expected `{want.pretty()}` (one entry per aspirate and per dispense on that labware)".replace("§cnt", cnt), where=w)
         lab_arg = (fv.bind_args(cs) or {}).get("label")
-        ctx.rep.check(lab_arg is not None and is_name(lab_arg, "label"), rule, c + "/label", "condensed entry carries the operation's label", "condensed entry does not get the operation's label", where=w)
+        ctx.rep.check(lab_arg is not None and "label" in _flow_names(fv, lab_arg, cs.node), rule, c + "/label", "condensed entry carries the operation's label", "condensed entry does not get the operation's label", where=w)
     recvs = sorted({cs.call.func.value.id for cs in cond if isinstance(cs.call.func, ast.Attribute) and isinstance(cs.call.func.value, ast.Name)})
     ctx.rep.check(recvs == ["destination", "source"], rule, cb + "/both-labware", "both labware are condensed", f"only {recvs} get their history condensed", where=f.where())
     # step calls pass label=None (per-step entries are unlabelled; the label is attached by condense_log)
